@@ -3,6 +3,8 @@ from props import loadcommon as LC
 import loadgen as G
 import loadrun as L
 
+from typing import List  # noqa: E402
+
 PROPERTY = 'C08'
 LEAN_MODULES = ['YatimlModel.Props.C08']
 THEOREMS = ['YatimlModel.C08.' + t for t in ['C08_process_no_other', 'C08_construct_no_other',
@@ -65,6 +67,42 @@ def explore(ctx):
                 ctx.violation('load raises {} for text {!r}'.format(out[1][:120], text[:200]),
                               dict(key='soup:{}:{}'.format(out[1].split(':')[0], text[:60]), text=text,
                                    doc_type=repr(t), classes=model.source[-2500:]))
+    # class models with annotations yatiml cannot use: forward references, strings, tuples, sets, callables
+    ODD = ["Optional[List['Node']]", "'Node'", "Tuple[int, int]", "set", "Dict[int, str]", "Optional['Node']",
+           "Callable[[int], int]", "List['Missing']", "Union['Node', int]", "frozenset", "bytes", "complex", "object"]
+    DOCS = ['{v: 1}', '{v: 1, x: [{v: 2}]}', '{v: 1, x: {v: 2}}', '{v: 1, x: [1, 2]}', '{v: 1, x: 3}',
+            '{v: 1, x: null}', '{v: 1, x: {1: a}}', '{v: 1, x: !Node {v: 2}}', '{v: 1, x: a}', '[{v: 1, x: []}]']
+    for i in range(ctx.budget(len(ODD), len(ODD) * 3)):
+        ann = ODD[i % len(ODD)]
+        default = ' = None' if rng.random() < 0.5 else ''
+        src = ('import yatiml\nfrom typing import *\nclass Node:\n'
+               '    def __init__(self, v: int, x: {}{}) -> None:\n        self.v = v\n        self.x = x\n'.format(ann, default))
+        ns = {}
+        try:
+            exec(src, ns)
+            loaders = [yatiml.load_function(ns['Node']), yatiml.load_function(List[ns['Node']], ns['Node'])]
+        except Exception:  # noqa
+            ctx.count('odd_model_rejected_at_creation')
+            continue
+        for load in loaders:
+            for text in DOCS:
+                try:
+                    load(text)
+                    res = 'ok'
+                except (yatiml.RecognitionError, yaml.YAMLError):
+                    res = 'rec'
+                except Exception as e:  # noqa
+                    res = 'other:' + type(e).__name__
+                ctx.case(('odd', ann, text), nontrivial=res != 'ok')
+                ctx.count('odd_annotation:' + res.split(':')[0])
+                if res == 'other:RuntimeError' and ann.startswith('Dict[int'):
+                    # "YAtiML only supports dicts with strings as keys": the documented answer to this
+                    # programming error (HooksTame / TameP in the theorem's hypotheses)
+                    ctx.count('excluded:dict-with-non-string-keys')
+                    continue
+                if res.startswith('other'):
+                    ctx.violation('load raises {} for {!r} with an attribute annotated {}'.format(res[6:], text, ann),
+                                  dict(key='odd:{}:{}'.format(ann, res), classes=src, text=text))
     LC.correspond(ctx, cases)
 
 
